@@ -26,6 +26,8 @@ def cases(tier, seed):
             a for a in common.wide_algs(c, lvl) if a["kind"] == "batch"]):
         out.append((sc, c))
     for sc, c in common.thin(bat, 8 if tier != "thorough" else 1):
+        if tier != "thorough" and len(c["cfg"]["obs"]) > 2:
+            continue      # 3-observation adversary cases: thorough only
         for p in (1, 2):
             cc = dict(c)
             cc["alg"] = {"kind": "advbatch", "p": p, "min": 1,
